@@ -54,9 +54,13 @@ inductive Ev where
   | ping (id : Bytes)              -- builtin: a pong with this id is queued and written by `ReadPacket`
   deriving DecidableEq, Repr
 
+/-- bytes of an ASCII string constant (the memcached commands are ASCII: `magics_ascii` in `FrameLemmas`) -/
+def bytesOfAscii (s : String) : Bytes := s.toList.map (fun c => UInt8.ofNat c.toNat)
+
+/-- `memcachedCommands` -/
 def magics : List Bytes :=
-  [memcachedStatsReqRN.toUTF8.toList, memcachedStatsReqN.toUTF8.toList, memcachedGetStatsReq.toUTF8.toList,
-   memcachedVersionReq.toUTF8.toList]
+  [bytesOfAscii memcachedStatsReqRN, bytesOfAscii memcachedStatsReqN, bytesOfAscii memcachedGetStatsReq,
+   bytesOfAscii memcachedVersionReq]
 
 /-- the checks of `readPacketHeaderUnlockedImpl` after the 12 header bytes are in, in source order -/
 def checkHeader (st : RState) (len seq tip : Nat) : Option RErr :=
